@@ -78,17 +78,23 @@ def r2_directions(ctx):
             # manual counting loop instead of an iterator: decide direction and coverage from the induction variable
             c = cls[0]
             is_len = lambda t: peel(t)[0] == 'call' and peel(t)[1].endswith('Vec::len') and any(x[0] == 'field' and x[2] == 'items' for x in walk(t))
+            from .engine.helpers import _chase, _chase_local
             for h in hooks:
-                recv = peel(f.expr_operand(h.args[0], h.b, 'T'))
-                idx = [x for x in walk(recv) if x[0] == 'call' and x[1].endswith(('IndexMut>::index_mut', 'Index>::index')) and any(y[0] == 'field' and y[2] == 'items' for y in walk(x[2][0]))]
-                it = peel(idx[0][2][1]) if idx else None
-                if it is not None and it[0] == 'field' and it[1][0] == 'bin':
-                    it = it[1]
-                is_var = lambda t: t is not None and ((peel(t)[0] == 'phi' and peel(t)[2] == c['name']) or peel(t) == ('local', c['var']))
+                # the element addressed: items[<index operand>] inside the loop body (MIR level: independent of expression caches)
+                ixs = [x for x in f.calls() if x.b in c['body'] and (x.callee or '').endswith(('IndexMut::index_mut', 'Index::index')) and
+                       any(y[0] == 'field' and y[2] == 'items' for y in walk(f.expr_operand(x.args[0], x.b, 'T'))) and f.dominates(x.b, h.b)]
+                it = None
+                rev_idx = fwd_idx = False
+                if len(ixs) == 1:
+                    io = ixs[0].args[1]
+                    fwd_idx = _chase_local(f, io) == c['var']
+                    r = _chase(f, {'k': 'use', 'o': io})
+                    rev_idx = r is not None and r['k'] in ('binop', 'cbinop') and r['op'].startswith('Sub') and r['b'].get('int') == 1 and _chase_local(f, r['a']) == c['var']
+                    it = f.expr_operand(io, ixs[0].b, 'T')
                 if want_rev:
-                    ok = c['step'] == -1 and is_len(c['init']) and c['stay'] == ('gt', ('int', 0)) and it is not None and it[0] == 'bin' and it[1].startswith('Sub') and is_var(it[2]) and it[3] == ('int', 1)
+                    ok = c['step'] == -1 and is_len(c['init']) and c['stay'] == ('gt', ('int', 0)) and rev_idx
                 else:
-                    ok = c['step'] == 1 and peel(c['init']) == ('int', 0) and c['stay'][0] == 'lt' and any(x[0] == 'call' and x[1].endswith('Vec::len') for x in walk(c['stay'][1])) and is_var(it)
+                    ok = c['step'] == 1 and peel(c['init']) == ('int', 0) and c['stay'][0] == 'lt' and any(x[0] == 'call' and x[1].endswith('Vec::len') for x in walk(c['stay'][1])) and fwd_idx
                 ctx.check(ok and c['exits_only_at_guard'], 'direction:%s' % k.split('::')[-1],
                           '%s visits the whole element stack %s' % (short(k), 'in reverse stack order' if want_rev else 'in stack order'), h.where(),
                           {'form': 'counting loop', 'init': show(c['init'])[:80], 'step': c['step'], 'stay': c['stay'][0], 'index': show(it)[:80] if it else None})
